@@ -168,12 +168,103 @@ func init() {
 					}
 				}
 			}
+			// the same typed text before and after the command token: each occurrence is resolved against the key table
+			// of the level it is given at (inherited + own keys inside the command)
+			{
+				root, cmd := t.Nodes[""], t.Nodes["cmd"]
+				mkItem := func(n *Node, pfx string, val string) (*Item, []string) {
+					rk, ro, amb := n.ResolveKey(pfx)
+					if ro == nil {
+						return nil, amb
+					}
+					it := &Item{Opt: ro, OptID: ro.ID, Key: rk, Typed: pfx, Level: n.Path}
+					switch {
+					case ro.Kind.IsFlag():
+						it.K = IFlag
+						it.Tokens = []string{"--" + pfx}
+					case ro.Kind == KStrings:
+						it.K = IMulti
+						it.Attached = true
+						it.Vals = []string{val}
+						it.Tokens = []string{"--" + pfx + "=" + val}
+					default:
+						it.K = IValued
+						it.Attached = true
+						if ro.Kind == KInt {
+							val = "7" + fmt.Sprint(len(val))
+						}
+						it.Vals = []string{val}
+						it.Tokens = []string{"--" + pfx + "=" + val}
+					}
+					return it, nil
+				}
+				seen := map[string]bool{}
+				for _, k := range cmd.SortedKeys() {
+					rs := Runes(k)
+					for n := 1; n <= len(rs); n++ {
+						pfx := strings.Join(rs[:n], "")
+						if seen[pfx] {
+							continue
+						}
+						seen[pfx] = true
+						it1, _ := mkItem(root, pfx, "before")
+						if it1 == nil {
+							continue
+						}
+						it2, amb := mkItem(cmd, pfx, "afterx")
+						sc := &Scenario{Prog: p, Items: []*Item{it1, {K: ICmd, Tok: "cmd", Tokens: []string{"cmd"}, Level: ""}}}
+						if it2 != nil {
+							sc.Items = append(sc.Items, it2)
+							sc.Assemble()
+						} else {
+							sc.Assemble()
+							sc.Argv = append(sc.Argv, "--"+pfx)
+						}
+						oc := Run(p, sc.Argv, false)
+						res.Execs++
+						res.Events++
+						doc := &CaseDoc{Prog: p, Argv: sc.Argv, Note: fmt.Sprintf("typed %q before and after the command token", pfx)}
+						if it2 == nil {
+							if !oc.HasErr {
+								doc.Got = oc
+								return viol("same text at two levels", []string{fmt.Sprintf("%q is ambiguous inside the command (%v) but Parse succeeded", pfx, amb)}, doc)
+							}
+							for _, c := range amb {
+								if !strings.Contains(oc.Err, c) {
+									doc.Got = oc
+									return viol("same text at two levels", []string{fmt.Sprintf("error %q does not list candidate %q", oc.Err, c)}, doc)
+								}
+							}
+							res.Counters = addCounter(res.Counters, "two_level_ambiguous", 1)
+							continue
+						}
+						exp := Fold(t, sc)
+						if d := Diff(t, oc, exp); len(d) > 0 {
+							doc.Got, doc.Expect = oc, exp
+							return viol("same text at two levels", d, doc)
+						}
+						if it1.Opt != it2.Opt || it1.Key != it2.Key {
+							res.Counters = addCounter(res.Counters, "two_level_resolves_differently", 1)
+						}
+					}
+				}
+			}
 			res.Cells = []string{fmt.Sprintf("mode=%s", modeNames[mode]), fmt.Sprintf("ambiguous>0=%v", nAmb > 0), fmt.Sprintf("uniqueprefix>0=%v", nUniq > 0)}
-			res.Counters = map[string]int{"ambiguous_prefix_executions": nAmb, "unique_prefix_executions": nUniq, "exact_name_executions": nExact}
+			res.Counters = addCounter(res.Counters, "ambiguous_prefix_executions", nAmb)
+			res.Counters = addCounter(res.Counters, "unique_prefix_executions", nUniq)
+			res.Counters = addCounter(res.Counters, "exact_name_executions", nExact)
 			if nAmb > 0 && nUniq > 0 {
 				res.Sig = fmt.Sprintf("%d|%v|%v", mode, t.Nodes[""].SortedKeys(), t.Nodes["cmd"].SortedKeys())
 			}
 			return res
 		},
 	})
+}
+
+func addCounter(m map[string]int, k string, n int) map[string]int {
+	if m == nil {
+		m = map[string]int{}
+	}
+	m[k] += n
+	return m
 }
